@@ -184,7 +184,7 @@ func (g *Gen) Stmt(d int) node.Type {
 	case 2:
 		return node.IfElse{Condition: cond(), TrueCase: g.Stmt(d - 1), FalseCase: g.Stmt(d - 1)}
 	case 3: // counted loop, value of the body is the value of the loop
-		return blk(asg("i", node.Int(0)), node.While{Condition: bin("<", nm("i"), node.Int(2)), Body: blk(asg("i", bin("+", nm("i"), node.Int(1))), g.Stmt(d-1))})
+		return blk(asg("w", node.Int(0)), node.While{Condition: bin("<", nm("w"), node.Int(2)), Body: blk(asg("w", bin("+", nm("w"), node.Int(1))), g.Stmt(d-1))})
 	case 4: // loop left by return
 		return node.While{Condition: node.Bool(true), Body: node.Return{Target: leaf()}}
 	case 5:
